@@ -386,3 +386,50 @@ package ring
 //@   at exit: assert all: r1 == nil ==> (forall k uint32 :: cov[k] <==> own[k])
 //@   at exit: assert linked: r1 == nil ==> (forall k uint32 :: cov[k] <==> coversA(r0, k))
 //@   at exit: assert exactA: r1 == nil ==> (forall k uint32 :: coversA(r0, k) <==> pOwner(r, k) == partitionID)
+//@
+//@ # ---- the ring client's indexes are built from the descriptor (towards ringRep / zonesRep, C01 C05) ----------------
+//@ # every token of every entry gets an owner record, and every owner record names an existing entry together with that
+//@ # entry's zone (whoever wins when a token is claimed twice)
+//@ func Desc.getTokensInfo
+//@   property C05 C01
+//@   requires !isnil(d.Ingesters)
+//@   ensures  all: forall id string, j int :: in(id, d.Ingesters) && 0 <= j && j < len(d.Ingesters[id].Tokens) ==> in(d.Ingesters[id].Tokens[j], result)
+//@   ensures  only: forall t uint32 :: in(t, result) ==> in(result[t].InstanceID, d.Ingesters) && result[t].Zone == d.Ingesters[result[t].InstanceID].Zone
+//@   loop 0 invariant !isnil(out) && same(d, old(d))
+//@   loop 0 invariant forall id string, j int :: $visited[id] && in(id, d.Ingesters) && 0 <= j && j < len(d.Ingesters[id].Tokens) ==> in(d.Ingesters[id].Tokens[j], out)
+//@   loop 0 invariant forall t uint32 :: in(t, out) ==> in(out[t].InstanceID, d.Ingesters) && out[t].Zone == d.Ingesters[out[t].InstanceID].Zone
+//@   loop 1 invariant !isnil(out) && same(d, old(d)) && in(instanceID, d.Ingesters) && same(instance, d.Ingesters[instanceID]) && info.InstanceID == instanceID && info.Zone == instance.Zone
+//@   loop 1 invariant forall id string, j int :: $visited0[id] && in(id, d.Ingesters) && 0 <= j && j < len(d.Ingesters[id].Tokens) && (id != instanceID || j < $i) ==> in(d.Ingesters[id].Tokens[j], out)
+//@   loop 1 invariant forall t uint32 :: in(t, out) ==> in(out[t].InstanceID, d.Ingesters) && out[t].Zone == d.Ingesters[out[t].InstanceID].Zone
+//@   modifies nothing
+//@
+//@ # descriptor invariants the merge code establishes (normalizeIngestersMap: every list strictly sorted; resolveConflicts:
+//@ # no token in two entries). Under them the merged token list is strictly sorted and consists of entry tokens only.
+//@ pred descTokensOK(d Desc) = (forall id string :: in(id, d.Ingesters) ==> sortedStrict(d.Ingesters[id].Tokens)) &&
+//@      (forall a, b string, i, j int :: in(a, d.Ingesters) && in(b, d.Ingesters) && a != b && 0 <= i && i < len(d.Ingesters[a].Tokens) && 0 <= j && j < len(d.Ingesters[b].Tokens) ==> d.Ingesters[a].Tokens[i] != d.Ingesters[b].Tokens[j])
+//@ # MergeTokens (loser tree, not under contract): a sorted merge, i.e. a sorted permutation of the concatenated inputs.
+//@ # mtL / mtI / mtPos are the position witnesses of that permutation.
+//@ pure func mtL(in [][]uint32, out []uint32, a int) int
+//@ pure func mtI(in [][]uint32, out []uint32, a int) int
+//@ pure func mtPos(in [][]uint32, out []uint32, l int, i int) int
+//@ assume func MergeTokens
+//@   modifies nothing
+//@   ensures sortedNS(result)
+//@   ensures forall a int :: 0 <= a && a < len(result) ==> 0 <= mtL(instances, result, a) && mtL(instances, result, a) < len(instances) && 0 <= mtI(instances, result, a) && mtI(instances, result, a) < len(instances[mtL(instances, result, a)]) &&
+//@             result[a] == instances[mtL(instances, result, a)][mtI(instances, result, a)] && mtPos(instances, result, mtL(instances, result, a), mtI(instances, result, a)) == a
+//@   ensures forall l, i int :: 0 <= l && l < len(instances) && 0 <= i && i < len(instances[l]) ==> 0 <= mtPos(instances, result, l, i) && mtPos(instances, result, l, i) < len(result) &&
+//@             result[mtPos(instances, result, l, i)] == instances[l][i] && mtL(instances, result, mtPos(instances, result, l, i)) == l && mtI(instances, result, mtPos(instances, result, l, i)) == i
+//@
+//@ func Desc.GetTokens
+//@   property C05 C01
+//@   ghost var idOf total[int]string = havoc
+//@   ghost var ixOf total[string]int = havoc
+//@   ensures  strict: descTokensOK(d) ==> sortedStrict(result)
+//@   ensures  from_entries: descTokensOK(d) ==> forall a int :: 0 <= a && a < len(result) ==> (exists id string, j int :: in(id, d.Ingesters) && 0 <= j && j < len(d.Ingesters[id].Tokens) && d.Ingesters[id].Tokens[j] == result[a])
+//@   ensures  all_entries: descTokensOK(d) ==> forall id string, j int :: in(id, d.Ingesters) && 0 <= j && j < len(d.Ingesters[id].Tokens) ==> (exists a int :: 0 <= a && a < len(result) && result[a] == d.Ingesters[id].Tokens[j])
+//@   loop 0 end idOf := store(idOf, len(instances) - 1, $k)
+//@   loop 0 end ixOf := store(ixOf, $k, len(instances) - 1)
+//@   loop 0 invariant same(d, old(d)) && len(instances) == $i
+//@   loop 0 invariant descTokensOK(d) ==> (forall x int :: 0 <= x && x < len(instances) ==> $visited[idOf[x]] && in(idOf[x], d.Ingesters) && instances[x] == d.Ingesters[idOf[x]].Tokens && ixOf[idOf[x]] == x)
+//@   loop 0 invariant forall id string :: $visited[id] ==> 0 <= ixOf[id] && ixOf[id] < len(instances) && idOf[ixOf[id]] == id
+//@   modifies nothing
